@@ -278,6 +278,7 @@ def r7(ctx):
 
 
 def run(ctx):
+    scan_rule(ctx, "C06")
     r1(ctx)
     r2(ctx)
     r3(ctx)
